@@ -20,7 +20,7 @@ ANCHORS = ["decaylanguage.dec.dec:DecFileParser._add_charge_conjugate_decays", "
            "decaylanguage.dec.dec:DecFileParser._add_decays_to_be_copied"]
 WORKERS = {"quick": 4, "thorough": 16}
 WTESTS = {"groups": ['parse'], "tests": ['tests/dec'], "counts": ["C01.parse."]}
-REQUIRED = {"refused-then-registered-then-parsed": 5, "orientation:forward": 20, "orientation:reverse": 20, "alias-alias-pair": 20, "self-pair": 5, "unknown-daughter": 20, "self-conjugate-daughter": 20,
+REQUIRED = {"source-mother-declared-three-times": 5, "refused-then-registered-then-parsed": 5, "orientation:forward": 20, "orientation:reverse": 20, "alias-alias-pair": 20, "self-pair": 5, "unknown-daughter": 20, "self-conjugate-daughter": 20,
             "aliased-daughter": 20, "source-from-CopyDecay": 10, "cdecay-without-source": 10, "decay+cdecay-one-name": 10, "decay+cdecay>=2-names": 5,
             "chargeconj-statements:1-2": 10, "chargeconj-statements>=6": 5, "switch-off:>3-tables+applicable": 10, "cdecay-before-source-block": 10,
             "chargeconj-after-use": 10, "tables>=4": 20, "photos-and-params-in-source": 20, "corpus-cdecay-statements": 100, "two-aliases-of-a-self-conjugate-particle": 5, "two-copies-of-one-source": 5, "switch:off-then-on-same-instance": 20, "switch:on-queried-then-off-same-instance": 20, "decay-block-empty+cdecay-same-name": 3, "real-name-pair": 20, "alias-paired-with-plain-name": 10}
@@ -207,6 +207,13 @@ def gen_file(ctx):
                 cdecays.append({"k": "CDecay", "name": n})
                 hits.append("decay-block-empty+cdecay-same-name")
                 break
+    # a mother whose conjugate table is requested, declared again twice (three blocks in all): the first block in the file counts, for the conjugate too
+    srcs = [b for b in blocks if b["lines"] and any(c["name"] == conj(b["m"]) for c in cdecays)]
+    if srcs and r.random() < 0.2:
+        b = r.choice(srcs)
+        for _ in range(2):
+            blocks.append({"k": "Decay", "m": b["m"], "lines": [{"bf": g.bflit(), "fs": daughters(), "photos": False, "model": "PHSP", "params": []} for _ in range(r.choice([1, 2]))]})
+        hits.append("source-mother-declared-three-times")
     stmts = decgen.interleave(r, alias_st, cc_st, blocks, cdecays, copies)
     if r.random() < 0.5:
         r.shuffle(stmts)
